@@ -200,7 +200,7 @@ def run_harness(prop, outdir, seed, tier, extra_args=(), timeout=1800, extra_env
     return rc, out
 
 
-_PAIR = re.compile(r"\((\d+),\s*(\d+)\)")
+_PAIR = re.compile(r"\(\s*(\d+),\s*(\d+)\s*\)")
 
 
 def _eval_shard(path):
@@ -316,7 +316,8 @@ class Check:
         rc, out = build_harness(self.harness_prop)
         if rc != 0:
             return empty, [], [dict(kind="correspondence", detail="harness does not build against the repository's working tree:\n" + out[-3000:])]
-        outdir = os.path.join(RUN, self.prop if REPO == "/repo" else self.prop + "_" + hashlib.sha1(REPO.encode()).hexdigest()[:8])
+        # one scratch directory per run (concurrent checks of one property must not share it); removed when clean
+        outdir = os.path.join(RUN, "%s%s-%d" % (self.prop, "" if REPO == "/repo" else "_" + hashlib.sha1(REPO.encode()).hexdigest()[:8], os.getpid()))
         extra = [replay] if replay else []
         rc, out = run_harness(self.harness_prop, outdir, seed, tier, extra, timeout=self.harness_timeout)
         if rc != 0:
@@ -329,6 +330,8 @@ class Check:
             for i, code in mism:
                 c = cases.get(i, {})
                 found.append(dict(index=i, code=code, case=c.get("case"), coq=c.get("coq"), kind=c.get("kind")))
+        if not mism and not problems:
+            shutil.rmtree(outdir, ignore_errors=True)
         return summ, found, problems
 
     def run(self, tier, seed, replay=None):
